@@ -547,7 +547,8 @@ public:
 		{
 			if (auto childNode = mRootXml.first_child())
 			{
-				if (childNode.type() == pugi::node_element)
+				// As in the nested scopes: an element with text is a value, not an array
+				if (childNode.type() == pugi::node_element && (childNode.first_child().empty() || childNode.first_child().type() == pugi::node_element))
 				{
 					return std::make_optional<PugiXmlArrayScope<TMode>>(childNode, TArchiveScope<TMode>::GetContext());
 				}
@@ -590,7 +591,8 @@ public:
 		{
 			if (auto node = mRootXml.first_child())
 			{
-				if (node.type() == pugi::node_element)
+				// As in the nested scopes: an element with text is a value, not an object
+				if (node.type() == pugi::node_element && (node.first_child().empty() || node.first_child().type() == pugi::node_element))
 				{
 					return std::make_optional<PugiXmlObjectScope<TMode>>(node, TArchiveScope<TMode>::GetContext());
 				}
